@@ -334,7 +334,10 @@ def long_file_worker(job):
     path = os.path.join(wd, name + '.z80')
     err = ''
     if kind == 'ws':
-        snapshot.write_snapshot(path, ram_arg(written), ['pc=32768'], [], machine)
+        try:
+            snapshot.write_snapshot(path, ram_arg(written), ['pc=32768'], [], machine)
+        except Exception as e:
+            err = 'write_snapshot:%s:%s' % (type(e).__name__, str(e)[:200])
     else:
         src = os.path.join(wd, name + '-in.z80')
         st = dict(a=1, f=2, bc=3, de=4, hl=5, a2=6, f2=7, bc2=8, de2=9, hl2=10, ix=11, iy=12, sp=13, pc=32768, i=14, r=15,
@@ -731,7 +734,12 @@ def defaults_case(wd, n, route, machine):
         path = os.path.join(wd, 'd%d.%s' % (n, fmt))
         if route == 'ws':
             dc = dontcare + ['sp', 'pc']
-            snapshot.write_snapshot(path, ram_arg(banks), [], [], machine)
+            try:
+                snapshot.write_snapshot(path, ram_arg(banks), [], [], machine)
+            except Exception as e:
+                files.append(dict(fmt=fmt, rerr='write:%s:%s' % (type(e).__name__, str(e)[:200]), ierr='', real=NOFIELDS, ind=NOFIELDS,
+                                  banks=[], rextra=[], iextra=[], **raw_record(path, None)))
+                continue
         else:
             # bin2sna: border default 7, stack and start default to the origin
             dc = dontcare
@@ -748,7 +756,9 @@ def defaults_case(wd, n, route, machine):
                 st.update(border=7, sp=0, pc=0)
             err = quiet_main(bin2sna, [binf, path])
             if err:
-                raise MachineryError('bin2sna defaults: ' + err)
+                files.append(dict(fmt=fmt, rerr='write:' + err, ierr='', real=NOFIELDS, ind=NOFIELDS, banks=[], rextra=[], iextra=[],
+                                  **raw_record(path, None)))
+                continue
         rec, _ = observe(path, banks)
         files.append(rec)
     return dict(key='%s:%s:defaults' % (route, machine), route=route, machine=machine, want=want_record(st), dontcare=dc,
@@ -928,7 +938,7 @@ def op_args(rng, o, tool, wd, tag):
             rng_s = '%s-%s-%s' % (num(rng, o['a']), num(rng, o['b']), num(rng, o['step']))
         val = {'set': '', 'xor': '^', 'add': '+'}[o['op']] + num(rng, o['v'])
         return ['-P' if tool == 'b' else '-p', '%s%s,%s' % (pfx, rng_s, val)]
-    if k == 'move':
+    if k in ('move', 'moveover'):
         dp = ''
         if o['page'] >= 0 and (o['dpage'] != o['page'] or rng.random() < 0.5):
             dp = '%d:' % o['dpage']
@@ -1086,3 +1096,47 @@ def trace_worker(job):
         steps.append(dict(ops=ops, obs=obs, tool='snapmod', args=[a for a in args if not a.startswith(wd)]))
         path = out
     return dict(fmt=fmt, ver=ver, machine=machine, create=create, steps=steps, seed=sd, n=n, nsteps=nsteps)
+
+
+def over_trace_worker(job):
+    """A bank-prefixed --move whose source or destination range does not fit inside the 16K bank (SnapOps!MoveOver:
+    only the frame condition is specified). One creation step + one snapmod invocation."""
+    wd, n, sd, variant = job
+    rng = random.Random(sd)
+    snapshot = _sk()
+    from skoolkit import snapmod
+    machine = ('128K', '+2')[n % 2]
+    fmt = ('z80', 'szx')[(n // 2) % 2]
+    banks = base_banks(machine)
+    path = os.path.join(wd, 'o%d.%s' % (n, fmt))
+    regops, stateops, st = all_named_ops(rng, machine, fmt, 3)
+    o7 = [op('state', name='7ffd', v=rng.randrange(256))]
+    ops = regops + stateops + o7
+    regs = [op_args(rng, o, 'b', wd, '')[1] for o in regops]
+    state = [op_args(rng, o, 'b', wd, '')[1] for o in stateops + o7]
+    try:
+        snapshot.write_snapshot(path, ram_arg(banks), regs, state, machine)
+        err = ''
+    except Exception as e:
+        err = 'write_snapshot:%s:%s' % (type(e).__name__, str(e)[:200])
+    obs, cur = obs_of(path, banks, err)
+    steps = [dict(ops=ops, obs=obs, tool='ws')]
+    if err:
+        return dict(fmt=fmt, ver=3, machine=machine, create='ws', steps=steps, seed=sd, n=n, nsteps=1, over=variant)
+    sp, dp = rng.randrange(8), rng.randrange(8)
+    cnt = rng.choice((2, 10, 33))
+    if variant == 'src':
+        src, dst = BANK - rng.randrange(1, cnt), rng.randrange(0, BANK - cnt)
+    elif variant == 'dst':
+        src, dst = rng.randrange(0, BANK - cnt), BANK - rng.randrange(1, cnt)
+    else:
+        src, dst = BANK - rng.randrange(1, cnt), BANK - rng.randrange(1, cnt)
+    if rng.random() < 0.5:
+        src += 0xC000
+        dst += 0xC000
+    o = op('moveover', page=sp, a=src, n=cnt, dpage=dp, dst=dst)
+    args = op_args(rng, o, 'm', wd, '') + [path]
+    err = quiet_main(snapmod, args)
+    obs, cur = obs_of(path, cur, err)
+    steps.append(dict(ops=[o], obs=obs, tool='snapmod', args=[a for a in args if not a.startswith(wd)]))
+    return dict(fmt=fmt, ver=3, machine=machine, create='ws', steps=steps, seed=sd, n=n, nsteps=1, over=variant)
